@@ -24,7 +24,8 @@ def check(cx):
     # ---- C13.1 removal needs the fate of the stamping transaction --------------------------------
     r1 = cx.rule("C13.1", "FLOW: in vacuum_btree the branch that queues a tuple for physical removal depends, for each "
                  "stamp it tests (xmin, xmax), on a Snapshot status query applied to that stamp — presence of xmax alone "
-                 "says nothing about whether the deleter committed", floor=2)
+                 "says nothing about whether the deleter committed; a tuple whose mark VACUUM takes off is queued for write-back on "
+                 "every success path", floor=3)
     f = cx.guard(r1, VBC, p.fn, VBC)
     if f:
         aborted_q = [c for c in f.calls() if c.callee == SNAP + "::is_transaction_aborted" or c.callee == SNAP + "::is_committed_before_snapshot"]
@@ -74,6 +75,21 @@ def check(cx):
                    "the deleter's status (aborted?) is queried and decides whether the tuple is removed",
                    "a tuple is removed because an xmax is present, without asking whether the deleting transaction "
                    "committed: a row whose DELETE was rolled back is physically removed by VACUUM (D7)")
+
+        # a tuple changed in place by VACUUM (the rolled-back deletion mark taken off) must be queued for write-back:
+        # VACUUM forgets the aborted ids afterwards, so a mark left on disk turns into a committed delete
+        und = [c for c in f.calls() if c.callee == "storage::tuple::Tuple::undelete"]
+        pushes = [c for c in f.calls() if c.callee.endswith("Vec::<T, A>::push")]
+        rets = [bi for bi, b in enumerate(f.blocks) if b["term"]["t"] == "ret"]
+        if not und:
+            cx.bad(r1, "undelete-written-back", f.where(), "vacuum no longer takes a rolled-back deletion mark off the tuple (D7)")
+        else:
+            leak = f.correlated_path(0, {c.bb for c in pushes} | f.err_blocks(), rets, via={c.term["to"] for c in und})
+            cx.verdict(leak is None, r1, "undelete-written-back", und[0].where(),
+                       "every success path after Tuple::undelete queues the tuple (tests of one unmodified flag correlated)",
+                       "after Tuple::undelete the closure can return without queueing the tuple for write-back (path bb%s): "
+                       "the stored tuple keeps the rolled-back deleter's mark and, once VACUUM has forgotten the aborted "
+                       "ids, the row disappears" % (leak,))
 
     # ---- C13.2 who removes physically --------------------------------------------------------------
     r2 = cx.rule("C13.2", "WMC: Btree::remove_tuple / Btree::remove are called only from vacuum_btree; Tuple::vaccum_with only "
